@@ -95,7 +95,7 @@ func buildArithSpace(tier string, seed int64) arithSpace {
 	s.Ys = append(s.Ys, longPartners()...)
 	s.Desc += "; LONG family: 129..300-digit coefficients with tails below/at/above one half in U (and a share in X), 70-digit and 1E+150 partners in X and Y"
 	s.HiUs = append(append([]Operand{}, lo...), Edge([]int32{-40, -1, 0, 3})...)
-	for _, p := range []uint32{19, 20, 21, 34, 38, 39} {
+	for _, p := range []uint32{19, 20, 21, 34, 38, 39, 128, 129, 130, 200} {
 		for _, m := range Modes8 {
 			s.HiCtxs = append(s.HiCtxs, MkCtx(p, -6143, 6144, m, 0))
 		}
@@ -111,7 +111,10 @@ func buildArithSpace(tier string, seed int64) arithSpace {
 			s.HiPairs = append(s.HiPairs, [2]Operand{a, Fin(3, 0, false)}, [2]Operand{a, Fin(7, -1, true)}, [2]Operand{Fin(1, 0, false), a})
 		}
 	}
-	s.Desc += "; high-precision block: LONG + EDGE operands (and pairs) at p in {19,20,21,34,38,39} x 8 modes (kept coefficients across the 64- and 128-bit boundaries)"
+	for _, pr := range [][2]int64{{1, 3}, {2, 3}, {-1, 7}, {1, 6}, {10, -9}, {1, 1024}} {
+		s.HiPairs = append(s.HiPairs, [2]Operand{Fin(absI(pr[0]), 0, pr[0] < 0), Fin(absI(pr[1]), 0, pr[1] < 0)})
+	}
+	s.Desc += "; high-precision block: LONG + EDGE operands (and pairs, incl. 1/3, 2/3, -1/7, 1/6, 10/-9, 1/1024) at p in {19,20,21,34,38,39} (kept coefficients across the 64- and 128-bit boundaries) and p in {128,129,130,200} (across the 128-entry power-of-ten tables) x 8 modes"
 	return s
 }
 
